@@ -29,9 +29,10 @@ partial def canon (h : Array (Cell Float)) (a : Addr) (depth : Nat := 0) : Strin
     | .cls name _ _ _ => "cls:" ++ stringToHex name
     | .exc msg => "exc:" ++ stringToHex msg
 
+/-- displayed output as the harness reports it: split into physical lines (a displayed text may contain line breaks) -/
 def traceField (out : List String) : String :=
   if out.isEmpty then "-" else
-  ",".intercalate (out.reverse.map fun l => if l.isEmpty then "e" else stringToHex l)
+  ",".intercalate ((out.reverse.flatMap fun l => l.splitOn "\n").map fun l => if l.isEmpty then "e" else stringToHex l)
 
 /-- frames bottom → top as the error printer lists them -/
 def locs (vm : VM Float) : String :=
